@@ -1060,7 +1060,8 @@ def check_scheduler_close(ctx: Ctx, rule: str) -> None:
     # "closed" is honoured where coroutines enter: spawn() refuses, the spawner cancels what it still has to start (so that it is awaited, not run)
     sp, sg = cfg_of(ctx, _sched(repo, 'spawn'))
     sme = sp.params()[0].arg
-    puts = sg.stmt_nodes(lambda x: isinstance(x, ast.Call) and method_call(x, 'put') is not None and dotted(method_call(x, 'put')) == f'{sme}._pending_coros')
+    puts = sg.stmt_nodes(lambda x: isinstance(x, ast.Call) and (method_call(x, 'put') or method_call(x, 'put_nowait')) is not None
+                         and dotted(method_call(x, 'put') or method_call(x, 'put_nowait')) == f'{sme}._pending_coros')
     ctx.require_sites(rule, 'Scheduler.spawn: queueing of the coroutine', len(puts), 1, sp.loc())
     for n in puts:
         conds = [a for t, o, _ in dominating_conditions(sg, n) for a in (_cond_atoms(sp, t, o) or [(t, o)])]
